@@ -39,7 +39,7 @@ func ScanReader(nshard int, reader func() (io.ReadCloser, error)) Slice {
 			}
 			state.Scanner = bufio.NewScanner(rc)
 			state.Closer = rc
-			if err := skip(state.Scanner, shard); err != nil {
+			if err := skip(state.Scanner, shard+1); err != nil {
 				return 0, err
 			}
 		}
